@@ -331,6 +331,23 @@ class QH(object):
                     h.emit((1, h.ids[rid]))
             return ret
         self.queue._pool_imap = pool_imap
+        self.blocked = []       # relay attempts whose pool.spawn is waiting for a free slot
+        orig_spawn = self.queue._pool_spawn
+
+        def pool_spawn(which, func, *a, **kw):
+            pool = getattr(self.queue, which + '_pool', None)
+            if which == 'relay' and pool is not None and pool.free_count() <= 0 and a:
+                rec = ('relay', h.ids.get(a[0], -1))
+                h.blocked.append(rec)
+                h.activity += 1
+                try:
+                    return orig_spawn(which, func, *a, **kw)
+                finally:
+                    h.blocked.remove(rec)
+                    h.activity += 1
+            return orig_spawn(which, func, *a, **kw)
+        self.queue._pool_spawn = pool_spawn
+        self.bounded_relay = relay_pool is not None
         self.started = False
         if start:
             self.queue.start()
@@ -413,17 +430,21 @@ class QH(object):
         q = self.queue
         st = []
         for ts, rid in sorted(self.inner.load(), key=lambda e: self.ids.get(e[1], -1)):
-            env, att = self.inner.get(rid)
+            try:
+                env, att = self.inner.get(rid)
+            except Exception as exc:       # a corrupted entry is part of the observed state
+                st.append((self.ids.get(rid, -1), 'get-raises:' + type(exc).__name__, (), -1, int(ts)))
+                continue
             st.append((self.ids[rid], 1 if env.sender else 0, tuple(self.rnum(r) for r in env.recipients), att, int(ts)))
         wait = None
         if q.wake.waiters:
             wait = ('wait', q.wake.waiters[0][1])
         return dict(
-            store=sorted(st),
+            store=sorted(st, key=repr),
             queued=sorted((int(ts), self.ids[rid]) for ts, rid in q.queued),
             qids=sorted(self.ids[r] for r in q.queued_ids),
             active=sorted(self.ids[r] for r in q.active_ids),
-            gates=sorted((g.kind, g.mid) for g in self.gates if g.kind not in ('write', 'load', 'wait')),
+            gates=sorted([(g.kind, g.mid) for g in self.gates if g.kind not in ('write', 'load', 'wait')] + list(self.blocked)),
             sched=wait, wake=q.wake.flag, clock=self.clock)
 
     # ------------------------------------------------------------ actions
@@ -526,6 +547,11 @@ def compare_with_model(ctx, h, label):
         # ghost logs against the harness' own records
         real_atts = [(a['id'], tuple(a['rcpts']), a['n'], a['start']) for a in h.attempts]
         model_atts = [a[:4] for a in final['atts']]
+        if getattr(h, 'bounded_relay', False):
+            # with a bounded relay pool an attempt starts when a slot is free: the model logs the spawn time
+            real_atts = [a[:3] for a in real_atts]
+            started = set((a[0], a[2]) for a in real_atts)
+            model_atts = [a[:3] for a in model_atts if (a[0], a[2]) in started]
         if sorted(real_atts) != sorted(model_atts):
             ctx.mismatch('queue-attempts', dict(schedule=label, events=h.trace), real_atts, model_atts)
             ok = False
@@ -583,7 +609,7 @@ class Run(object):
         self.script = list(script) if script is not None else None
         self.choices = []
         inner, self.cleanup = make_backend(cfg.get('backend', 'dict'))
-        self.h = QH(inner=inner)
+        self.h = QH(inner=inner, relay_pool=cfg.get('relay_pool'))
         self.msgs = 0
         self.flush_epoch = 0
         self.fair = True           # no announcement raced an enqueue or a pending remove
@@ -721,7 +747,7 @@ def check_tracked(ctx, run, case, where):
     h = run.h
     q = h.queue
     queued_ids = set(h.ids.get(rid) for ts, rid in q.queued)
-    busy = set(g.mid for g in h.gates if g.mid is not None)
+    busy = set(g.mid for g in h.gates if g.mid is not None) | set(b[1] for b in h.blocked)
     for ts, rid in h.inner.load():
         mid = h.ids[rid]
         known = any(e[0] == 1 and e[1] == mid for e in h.trace) or any(e[0] == 9 and e[2] == mid for e in h.trace)
@@ -744,7 +770,10 @@ def check_final(ctx, run, case):
         return
     stored = {}
     for ts, rid in h.inner.load():
-        env, att = h.inner.get(rid)
+        try:
+            env, att = h.inner.get(rid)
+        except Exception:
+            continue
         stored[h.ids[rid]] = set(h.rnum(r) for r in env.recipients)
     bounced = set(r for b in h.bounces for r in b[1])
     for mid, (sender, rcpts) in h.accepted.items():
@@ -859,3 +888,48 @@ def bounded_pool_scenario(ctx):
                      'neither the retry bookkeeping of 0 nor an attempt of 1 ever starts (pending gates: %r)' % (h.gates,))
     finally:
         h.close()
+
+
+def scripted_rounds(ctx, props, backend):
+    """directed multi-round partial deliveries (the index patterns random schedules rarely hit):
+    [a,b,c,d]: round 1 settles a, round 2 settles c (a LARGER relative index than round 1), round 3 the rest"""
+    inner, cleanup = make_backend(backend)
+    h = QH(inner=inner)
+    label = dict(schedule='scripted-rounds', backend=backend)
+    try:
+        if h.pending('load'):
+            h.release(h.pending('load')[0], [])
+        h.act_enqueue('s@example.com', [0, 1, 2, 3])
+        h.release(h.pending('write')[0])
+        plan = [('ok', 'temp', 'temp', 'temp'), ('temp', 'ok', 'temp'), ('perm', 'temp'), ('ok',)]
+        expect = [[0, 1, 2, 3], [1, 2, 3], [1, 3], [3]]
+        seen = []
+        for rnd, res in enumerate(plan):
+            g = h.pending('relay', 0)
+            if not g:
+                break
+            seen.append(list(g[0].info))
+            h.release(g[0], ('map', res))
+            if 'temp' not in res:
+                break
+            for kind in ('incr', 'set_ts', 'set_deliv'):
+                gg = h.pending(kind, 0)
+                if gg:
+                    h.release(gg[0], 0 if kind == 'incr' else None)
+            h.act_advance(1)
+            gg = h.pending('get', 0)
+            if gg:
+                h.release(gg[0])
+        for gg in list(h.pending('remove', 0)):
+            h.release(gg)
+        ctx.evaluated(('scripted-rounds', backend))
+        ctx.count('scripted-rounds:' + backend)
+        case = dict(label, attempts=seen, events=h.trace)
+        if 'c03' in props or 'c01' in props:
+            if seen != expect[:len(seen)] or len(seen) != len(expect):
+                ctx.fail('c03:settled-recipient-attempted-again' if 'c03' in props else 'c01:recipient-lost', case,
+                         'recipient lists of the successive attempts on %s storage: %r, expected %r' % (backend, seen, expect))
+        compare_with_model(ctx, h, label)
+    finally:
+        h.close()
+        cleanup()
